@@ -232,6 +232,9 @@ func runStream(s Stream, property string, seed int64, n int, thorough bool, gmod
 			lines[i] = tr.ModelLine(c, trace)
 		}
 	}
+	if dump := os.Getenv("VERIF_DUMP"); dump != "" {
+		_ = os.WriteFile(dump, []byte(strings.Join(lines, "\n")+"\n"), 0o644)
+	}
 	var models []string
 	if _, ok := s.(OracleOnly); ok || noTrace {
 		models = make([]string, len(lines))
